@@ -150,3 +150,19 @@ Qed.
 
 Lemma nth_error_mid {A} (l1 : list A) x l2 : nth_error (l1 ++ x :: l2) (length l1) = Some x.
 Proof. rewrite nth_error_app2 by lia. now rewrite Nat.sub_diag. Qed.
+
+Lemma swap_remove_keeps {A} (l : list A) i j x y : nth_error l i = Some x -> nth_error l j = Some y ->
+  i <> j -> In y (swap_remove i l).
+Proof.
+  intros Hi Hj Hne.
+  destruct (swap_remove_cases _ _ _ Hi) as [(l1 & -> & Hl & ->)|(l1 & l2 & z & -> & Hl & ->)].
+  - destruct (Nat.lt_ge_cases j (length l1)) as [H|H].
+    + rewrite nth_error_app1 in Hj by exact H. eapply nth_error_In; eauto.
+    + rewrite nth_error_app2 in Hj by exact H. destruct (j - length l1) as [|k] eqn:E; [lia|].
+      cbn in Hj. destruct k; discriminate.
+  - destruct (Nat.lt_ge_cases j (length l1)) as [H|H].
+    + rewrite nth_error_app1 in Hj by exact H. apply in_app_iff. left. eapply nth_error_In; eauto.
+    + rewrite nth_error_app2 in Hj by exact H. destruct (j - length l1) as [|k] eqn:E; [lia|].
+      cbn in Hj. apply nth_error_In in Hj. apply in_app_iff in Hj. apply in_app_iff. right.
+      destruct Hj as [Hj|[<-|[]]]; [right; exact Hj|now left].
+Qed.
